@@ -153,6 +153,9 @@ def r2(R2, cfg, F):
                 okedge = b.variant_edge(sw[0], 0)
                 ok = okedge is not None and wr[0].bb not in b.reachable([0], removed_edges=[(sw[0], okedge)])
                 why = 'write reachable without passing the Ok edge'
+                if ok and (b.reachable([okedge], removed_blocks=[wr[0].bb]) & set(b.return_blocks())):
+                    ok = False
+                    why = 'a successful reload can return without writing the new value'
                 # the result tested is the one produced by the load (record(..) or the bare closure call)
                 roots = b.call_roots(src[0])
                 names = sorted(r.callee.best for r in roots if r.callee)
